@@ -441,6 +441,13 @@ class NativeMemSlave:
         self.cyc = cyc + 1
 
 
+def _tag(sim):
+    """Engine-independent ordinal of an agent within its simulation (event logs must not contain signal indices)."""
+    n = getattr(sim, "_ntag", 0)
+    sim._ntag = n + 1
+    return n
+
+
 class StreamDriver:
     """Drives a stream sink endpoint with a list of items (dict field -> value, plus `delay`)."""
 
@@ -449,6 +456,7 @@ class StreamDriver:
         self.i_v, self.i_r = ix(ep.valid), ix(ep.ready)
         self.fields = [(f, ix(getattr(ep, f))) for f in fields]
         self.items = items
+        self.tag = _tag(sim)
         self.k = 0
         self.v = 0
         self.wait = items[0].get("delay", 0) if items else 0
@@ -463,6 +471,7 @@ class StreamDriver:
         if self.v and S[self.i_r]:
             it = self.items[self.k]
             self.n += 1
+            sim.ev("tx", self.tag, self.k)
             if self.on_xfer:
                 self.on_xfer(it)
             self.k += 1
@@ -492,6 +501,7 @@ class StreamSink:
         self.i_v, self.i_r = ix(ep.valid), ix(ep.ready)
         self.fields = [(f, ix(getattr(ep, f))) for f in fields]
         self.pat = Pattern(ready)
+        self.tag = _tag(sim)
         self.r = 0
         self.on_xfer = on_xfer
         self.n = 0
@@ -500,8 +510,10 @@ class StreamSink:
         S = sim.S
         if self.r and S[self.i_v]:
             self.n += 1
+            x = {f: S[i] for f, i in self.fields}
+            sim.ev("rx", self.tag, tuple(x.values()))
             if self.on_xfer:
-                self.on_xfer({f: S[i] for f, i in self.fields})
+                self.on_xfer(x)
         r = self.pat.next()
         if r != self.r:
             self.r = r
